@@ -1682,6 +1682,113 @@ def build_falsy(spec, QK):
     return (lambda: f(epg, z)), term
 
 
+# ================================================================== operator objects reused across state matrices
+# Guards that run at application time must run at EVERY application: the same operator object is
+# applied to a series of state matrices (directly, or through repeated simulate() calls) and the
+# last application is observed; what happened before (accepted or refused) must not matter.
+def conserves(K, dens):
+    """independent decision: exact rational khi @ density == 0"""
+    n = len(K)
+    d = dens if len(dens) == n else list(dens) * n
+    return all(sum(core.frac(K[i][j]) * core.frac(d[j]) for j in range(n)) == 0 for i in range(n))
+
+
+def gen_reuse(rng, n):
+    out = []
+    for i in range(n):
+        kind = rng.choice(["kinetic", "kinetic", "kinetic", "prepare", "grid", "diffusion"])
+        via = rng.choice(["call", "call", "simulate", "inplace"])
+        if kind == "kinetic":
+            nc = rng.choice([2, 2, 3])
+            K, good = asymmetric_kinetic(rng, nc)
+
+            def bad_density():
+                while True:
+                    d = [g * rng.choice([1.0, 2.0, 0.5, 1.0 + 2.0 ** -10]) for g in good]
+                    if not conserves(K, d):
+                        return d
+            scale = lambda: [g * rng.choice([1.0, 2.0, 0.25]) for g in [good[0]]][0] / good[0]
+            pattern = rng.choice(["good_bad", "good_bad", "good_good_bad", "bad_good", "bad_good_bad", "good_good",
+                                  "bad_bad", "good_bad_good"])
+            steps = []
+            for w in pattern.split("_"):
+                if w == "good":
+                    f = scale()
+                    steps.append([g * f for g in good])
+                else:
+                    steps.append(bad_density())
+            ok = conserves(K, steps[-1])
+            assert ok == pattern.endswith("good")
+            out.append(case("reuse", "kinetic_%s_via_%s_n%d" % (pattern, via, nc),
+                            {"kind": "kinetic", "via": via, "n": nc, "data": [x for r in K for x in r], "steps": steps,
+                             "tau": rng.choice([0.5, 2.0])}, "valid" if ok else "invalid"))
+        elif kind == "prepare":
+            n1 = rng.choice([2, 3])
+            shapes = {"good": [n1], "one": [1], "bad": [n1 + rng.choice([1, 2])], "good_nd": [n1, 2]}
+            pattern = rng.choice([["good", "bad"], ["one", "good", "bad"], ["bad", "good"], ["good_nd", "bad"],
+                                  ["bad", "good_nd"], ["good", "one"]])
+            steps = [shapes[w] for w in pattern]
+            ok = pattern[-1] != "bad"
+            out.append(case("reuse", "prepare_%s_via_%s" % ("_".join(pattern), via),
+                            {"kind": "prepare", "via": via, "op_shape": [n1], "steps": steps}, "valid" if ok else "invalid"))
+        elif kind == "grid":
+            pattern = rng.choice([["grid", "nogrid"], ["nogrid", "grid"], ["grid", "grid", "nogrid"], ["nogrid", "nogrid", "grid"]])
+            ok = pattern[-1] == "grid"
+            out.append(case("reuse", "float_shift_%s_via_%s" % ("_".join(pattern), via),
+                            {"kind": "grid", "via": via, "steps": pattern, "k": rng.choice([0.5, 1.5, -2.5])},
+                            "valid" if ok else "invalid"))
+        else:
+            m = rng.choice([2, 3])
+            pattern = rng.choice([[m, 1], [1, m], [m, m], [3, 2] if m == 2 else [2, 3], [m, 4 if m == 3 else 3]])
+            # state coordinates with s components; a tensor of lower dimension than min(s,3) is refused
+            steps = pattern
+            ok = min(max(steps[-1], m), 3) == m
+            out.append(case("reuse", "diffusion_tensor_%d_on_states_%s_via_%s" % (m, "_".join(map(str, steps)), via),
+                            {"kind": "diffusion", "via": via, "m": m, "steps": steps}, "valid" if ok else "invalid"))
+    return out
+
+
+def build_reuse(spec, QK):
+    import epgpy as epg
+    kind, via, steps = spec["kind"], spec["via"], spec["steps"]
+    if kind == "kinetic":
+        n = spec["n"]
+        op = epg.X(spec["tau"], np.array(spec["data"]).reshape(n, n))
+        sms = [lambda d=d: epg.StateMatrix(density=d) for d in steps]
+        term = "nth %d (X_reuse_ok %s %s %s) Accept" % (len(steps) - 1, nat(n), ql(spec["data"]),
+                                                       core.clist([ql(d) for d in steps]))
+    elif kind == "prepare":
+        op = op_of_shape(spec["op_shape"])
+        sms = [lambda sh=sh: epg.StateMatrix(shape=tuple(sh)) for sh in steps]
+        term = "prepare_ok true %s %s" % (natl(steps[-1]), natl(spec["op_shape"]))
+    elif kind == "grid":
+        op = epg.S(spec["k"])
+        sms = [lambda w=w: epg.T(90, 0)(epg.StateMatrix(**({"kgrid": 0.5} if w == "grid" else {}))) for w in steps]
+        g = "(Some %s)" % q(0.5) if steps[-1] == "grid" else "None"
+        term = "S_apply_ok (KArr true [] [%s]) CNone %s None" % (q(spec["k"]), g)
+    else:
+        m = spec["m"]
+        op = epg.D(5.0, np.eye(m))
+        sms = [lambda sdim=sdim: epg.S(np.array([[1] * sdim]))(epg.T(90, 0)(epg.StateMatrix())) for sdim in steps]
+        term = "D_apply_ok (Some %s) None %s" % (nat(m), nat(steps[-1]))
+
+    def apply(sm):
+        if via == "simulate":
+            return epg.simulate([op, epg.ADC], init=sm)
+        if via == "inplace":
+            return op(sm, inplace=True)
+        return op(sm)
+
+    def thunk():
+        for mk_sm in sms[:-1]:
+            try:
+                apply(mk_sm())
+            except Exception:
+                pass            # earlier applications may be refused or accepted: only the last one is observed
+        return apply(sms[-1]())
+    return thunk, term
+
+
 # ================================================================== registry
 CLASSES = {
     "duration": (gen_duration, build_duration, 3),
@@ -1700,6 +1807,7 @@ CLASSES = {
     "pulse": (gen_pulse, build_pulse, 2),
     "boundary": (gen_boundary, build_boundary, 0),
     "falsy_valid": (gen_falsy, build_falsy, 0),
+    "reuse": (gen_reuse, build_reuse, 3),
 }
 
 
